@@ -1,7 +1,7 @@
 #!/bin/bash
 # usage: tools/seedeval.sh <seed-dir-name e.g. C12a> <PROP> [tier]
 # Confirms a seeded change (demo fails with it / passes without, baseline unchanged) in a scratch worktree of
-# /repo HEAD, then runs the property's check against /repo with the patch applied, and reverts.
+# /repo HEAD, then runs the property's check against that patched worktree (VERIF_REPO), and removes it.
 set -u
 N=$1; P=$2; TIER=${3:-quick}
 SRC=/tmp/seed/$N/SEED
@@ -30,11 +30,9 @@ for tc in ET.parse(x).getroot().iter("testcase"):
 missing = [t for t in b["stable_pass"] if t not in passed]
 print("BASELINE stable_pass=%d passed=%d failed=%d missing=%d" % (len(b["stable_pass"]), len(passed), len(failed), len(missing)), missing[:5])
 PY
+echo "== check $P ($TIER) against the patched scratch worktree (VERIF_REPO)"
+cd /verif && VERIF_REPO=$WT ./check $P --tier $TIER --no-evidence > /tmp/seedeval-$N.check.log 2>&1; RC=$?
 cd /; git -C /repo worktree remove --force $WT
-echo "== check $P ($TIER) against /repo with patch applied"
-git -C /repo apply --whitespace=nowarn $SRC/patch.diff || { echo "apply to /repo failed"; exit 9; }
-cd /verif && ./check $P --tier $TIER --no-evidence > /tmp/seedeval-$N.check.log 2>&1; RC=$?
-git -C /repo checkout -- . 
 grep -c "^VIOLATION" /tmp/seedeval-$N.check.log; grep -v "^WARNING conda" /tmp/seedeval-$N.check.log | grep -v "^VIOLATION" | cut -c1-700 | tail -6
 echo "SUMMARY seed=$N prop=$P demo_orig_rc=$RC0 demo_patched_rc=$RC1 check_exit=$RC"
 git -C /repo status --short | head -3
